@@ -295,11 +295,13 @@ pub struct GenCfg {
     pub vww: bool,
     /// allow string literals with awkward characters
     pub odd_strings: bool,
+    /// probability (per mille) that a do-block local / lambda parameter reuses (shadows) a name in scope
+    pub shadowing_permille: u32,
 }
 
 impl Default for GenCfg {
     fn default() -> Self {
-        GenCfg { ill_typed_permille: 0, do_blocks: true, inputs: false, vww: true, odd_strings: false }
+        GenCfg { ill_typed_permille: 0, do_blocks: true, inputs: false, vww: true, odd_strings: false, shadowing_permille: 0 }
     }
 }
 
@@ -394,12 +396,29 @@ impl<'a> Gen<'a> {
                 }
                 13 => call(self.expr(Ty::FnNN, d, sc), vec![self.expr(Ty::Num, d, sc)]),
                 14 if self.cfg.do_blocks => {
-                    let t1 = sc.fresh_param();
+                    // the local may shadow a numeric name in scope (`k = k + 1` reads the outer k)
+                    let nums: Vec<String> = sc.of_ty(Ty::Num).iter().map(|s| s.to_string()).collect();
+                    let t1 = if !nums.is_empty() && self.r.chance(self.cfg.shadowing_permille, 1000) { self.r.pick(&nums).clone() } else { sc.fresh_param() };
                     let v = self.expr(Ty::Num, d, sc);
                     sc.vars.push((t1.clone(), Ty::Num));
+                    let mut stmts = vec![assign(&t1, v)];
+                    // further statements: bare expressions (some starting with a minus) and bindings
+                    for _ in 0..self.r.below(3) {
+                        let s = match self.r.below(4) {
+                            0 => H::Un(UOp::Neg, Box::new(self.leaf(Ty::Num, sc))),
+                            1 => bin(Op::Sub, H::Un(UOp::Neg, Box::new(self.leaf(Ty::Num, sc))), self.small_num()),
+                            2 => self.expr(Ty::Num, d.min(1), sc),
+                            _ => {
+                                let t2 = sc.fresh_param();
+                                let v2 = self.expr(Ty::Num, d.min(1), sc);
+                                assign(&t2, v2)
+                            }
+                        };
+                        stmts.push(s);
+                    }
                     let ret = self.expr(Ty::Num, d, sc);
                     sc.vars.pop();
-                    H::Do(vec![assign(&t1, v)], Box::new(ret))
+                    H::Do(stmts, Box::new(ret))
                 }
                 15 if self.cfg.vww => bin(Op::Into, self.expr(Ty::Num, d, sc), self.expr(Ty::FnNN, d, sc)),
                 16 => bin(Op::Coal, self.expr(Ty::Num, d, sc), self.expr(Ty::Num, d, sc)),
@@ -540,7 +559,8 @@ impl<'a> Gen<'a> {
                 if self.r.chance(1, 5) {
                     return self.leaf(t, sc);
                 }
-                let p = sc.fresh_param();
+                let nums: Vec<String> = sc.of_ty(Ty::Num).iter().map(|s| s.to_string()).collect();
+                let p = if !nums.is_empty() && self.r.chance(self.cfg.shadowing_permille, 1000) { self.r.pick(&nums).clone() } else { sc.fresh_param() };
                 sc.vars.push((p.clone(), Ty::Num));
                 let rt = if t == Ty::FnNN { Ty::Num } else { Ty::Bool };
                 let body = self.expr(rt, d, sc);
